@@ -232,6 +232,8 @@ Definition override_coverage (cls name owner : string) : option coverage :=
     else None
   else if String.eqb cls "Time" then
     if is "replace" then Some (Modelled "same fields, type Time")
+    else if is "__sub__" || is "__rsub__" then Some (Modelled "pd_time_sub (extension: the native time has no subtraction)")
+    else if is "__add__" then Some (Referenced "C20: Time.add (extension: the native time has no addition)")
     else if is "__str__" || is "__format__" then Some (Modelled "FormattableMixin (compared as strings)")
     else if is "__reduce__" || is "__reduce_ex__" then Some (Referenced "C14: pickling")
     else if is "__repr__" then Some (OutOfScope "repr")
